@@ -361,21 +361,23 @@ reg("C05", gen=gen_skel, obligation_files=["Props/C05.v", "Gen/Skel.v"],
 reg("C15", gen=gen_skel, obligation_files=["Props/C15.v", "Gen/Skel.v"],
     rule="T2: the skeletons of the three targeter closures are regenerated and lockset_ok must hold of each by reflection. T1: 1..64 "
          "goroutines draw concurrently from one real http / JSON targeter over 0..5000 targets until each has seen exhaustion three "
-         "times (every call stamped by a global atomic counter), and n draws from a static targeter over 1..7 targets; every case is non-trivial",
+         "times (every call stamped by a global atomic counter), and n draws from a static targeter over 1..7 targets; "
+         "real attacks (unlimited rate, 1..32 workers) drawing 1..1500 targets with own header lines and bodies from a JSON / http stream targeter, every request recorded by the transport; every case is non-trivial",
     clauses={10: "a target was delivered twice", 11: "a target was lost (or an unknown one delivered)", 12: "a delivered target mixes fields of different targets",
              13: "a call failed with an error other than exhaustion", 14: "a call that started after exhaustion was reported still delivered a target or error",
-             15: "a caller of the targeter never returned (blocked for 20 s)", 20: "static targeter returned an unknown target", 21: "static rotation uneven: a target used fewer than floor(n/k) or more than ceil(n/k) times", 22: "data race reported"},
-    assumptions=["data-race freedom of the binary is observed with the race detector in the thorough tier on the explored schedules, not proved",
+             15: "a caller of the targeter never returned (blocked for 20 s)", 20: "static targeter returned an unknown target", 21: "static rotation uneven: a target used fewer than floor(n/k) or more than ceil(n/k) times", 23: "static targeter: consecutive draws of a single caller do not advance by one target", 22: "data race reported"},
+    assumptions=["data-race freedom of the binary is observed with the race detector (a -race build of the harness re-runs the first cases of every run) on the schedules that happen, not proved; the all-schedules argument is the lockset theorem over the regenerated skeletons",
                  "sharing through the heap below the closure's own variables (e.g. header maps of returned targets) is outside the skeleton"],
     trusted_base=_T2_TB,
     level_text="lockset_sound and sections_exclusive are proved in Coq for every skeleton, any number of callers and every interleaving; json/http/static_targeter_safe are re-proved by reflection on skeletons regenerated from the current source on every run; static_rotation_index is proved. Tie: translator (T2) + concurrent histories judged by a checker defined in Coq.",
     technique="Coq soundness proof of a lockset checker + reflection on skeletons regenerated from source; concurrent stress histories",
     timeout={"quick": 600, "thorough": 3000})
+PROPS["C15"]["race"] = {"quick": 60, "thorough": 600, "clause": 22}
 PROPS["C02"]["gen"] = gen_skel
 PROPS["C02"]["obligation_files"] = ["Props/C02.v", "Gen/Skel.v"]
 PROPS["C02"]["trusted_base"] = _ATTACK_TB + _T2_TB
 
-reg("C18", needs_cli=True, gen=gen_skel, obligation_files=["Props/C18.v", "Gen/Skel.v"],
+reg("C18", needs_cli=True, race={"quick": 60, "thorough": 600, "clause": 22}, gen=gen_skel, obligation_files=["Props/C18.v", "Gen/Skel.v"],
     rule="T2: the skeletons of the DNSCaching and ConnectTo dial closures and of resolver.address are regenerated and lockset_ok must hold "
          "of each by reflection. T1: an in-process DNS server (miekg/dns, loopback UDP) serves 1..8 A/AAAA records (IPv4 only, IPv6 only, "
          "mixed) per case; the dial function installed by DNSCaching (alone, before and after ConnectTo) over a recording dial is called "
@@ -385,10 +387,11 @@ reg("C18", needs_cli=True, gen=gen_skel, obligation_files=["Props/C18.v", "Gen/S
              3: "a dial failed before reaching the recording dial function", 10: "ConnectTo dialled an address that is not a replacement", 11: "ConnectTo rotation uneven (a replacement used fewer than floor(n/k) or more than ceil(n/k) times)",
              12: "an unmapped address did not pass through unchanged",
              4: "with a DNS TTL of 0 (cache forever) the host was looked up again for later connections", 40: "the DNS dials of a custom resolver list do not rotate evenly over its addresses",
+             22: "data race reported in the dial path",
              30: "the attack command's requests for a -connect-to address did not all succeed at its replacements", 31: "the attack command never used one of the -connect-to replacements"},
     diffs={20: "sequential ConnectTo dial order differs from the model's rotation"},
     assumptions=["rs/dnscache lookup and refresh are library code; the shuffle is an oracle permutation in the model and a PRNG in the code (coverage clause 2 is probabilistic: miss probability < 1e-11 per address)",
-                 "data-race freedom of the binary is observed with the race detector in the thorough tier, not proved"],
+                 "data-race freedom of the binary is observed with the race detector (a -race build of the harness re-runs the first cases of every run) on the schedules that happen, not proved; the all-schedules argument is the lockset theorem over the regenerated skeletons"],
     trusted_base=_T2_TB + ["in-process DNS server (miekg/dns) and net.DefaultResolver override in the harness"],
     level_text="dial_targets_resolved, cache_preserved, every_address_possible, connect_to_rotation (any window of consecutive dials spreads floor/ceil over the replacements) and dial_lockset_sound are proved in Coq; dns_caching_dial_lockset / connect_to_dial_lockset / resolver_rotation_atomic are re-proved by reflection on skeletons regenerated from the current source on every run. Tie: translator (T2) + dial histories through a real DNS lookup path judged by a checker defined in Coq.",
     technique="Coq proofs over a functional dial model and a lockset checker + reflection on regenerated skeletons; recorded dial histories",
